@@ -139,6 +139,11 @@ Theorem C20_new_leader_seq : forall d c lg s lo hi app l s' o,
 Proof. exact new_leader_seq. Qed.
 Print Assumptions C20_new_leader_seq.
 
+Theorem C20_new_leader_seq_trace : forall d c lg ops tr,
+  rrun d c lg (init_sys d c) ops = Some tr -> leader_seq (c_id c) 0 ops tr.
+Proof. exact leader_seq_all. Qed.
+Print Assumptions C20_new_leader_seq_trace.
+
 (** * Solo *)
 Theorem C20_solo_contiguous : forall d init ops,
   solo_contiguous (shadow_init init) ops (srun d (init_ssys init) ops).
@@ -163,6 +168,8 @@ Theorem C20_reflect_tx_once : forall tr, tx_once_b tr = true <-> tx_once tr.
 Proof. exact tx_once_b_spec. Qed.
 Theorem C20_reflect_above_executed : forall ops sh tr, above_executed_b sh ops tr = true <-> above_executed sh ops tr.
 Proof. exact above_executed_b_spec. Qed.
+Theorem C20_reflect_leader_seq : forall id ops pl tr, leader_seq_b id pl ops tr = true <-> leader_seq id pl ops tr.
+Proof. exact leader_seq_b_spec. Qed.
 Theorem C20_reflect_solo_contiguous : forall ops sh tr, solo_contiguous_b sh ops tr = true <-> solo_contiguous sh ops tr.
 Proof. exact solo_contiguous_b_spec. Qed.
 Theorem C20_reflect_solo_commits : forall ops tr, solo_commits_b ops tr = true <-> solo_commits ops tr.
@@ -191,7 +198,7 @@ Print Assumptions C20_restart_height_only_refuted.
     gap, crash between execute and report) is a run, and hands over [102] *)
 Example C20_example_fixed :
   exists tr, rrun cfg_fixed w_cfg w_log (init_sys cfg_fixed w_cfg) w_ops = Some tr
-             /\ raft_prop_b (c_init w_cfg) w_log w_ops tr = 0
+             /\ raft_prop_b (c_init w_cfg) (c_id w_cfg) w_log w_ops tr = 0
              /\ all_events tr = [(2, [100]); (3, [101]); (4, [102])]
              /\ safe cfg_fixed w_cfg w_log.
 Proof.
@@ -207,7 +214,7 @@ Definition w_ops2 : list rop :=
    OReady 1 6 6 (Some 1); OPropose 2; OExec; OReport 4; OCrash; OReady 1 6 6 None].
 Example C20_example_current :
   exists tr, rrun only_restart w_cfg w_log2 (init_sys only_restart w_cfg) w_ops2 = Some tr
-             /\ raft_prop_b (c_init w_cfg) w_log2 w_ops2 tr = 0
+             /\ raft_prop_b (c_init w_cfg) (c_id w_cfg) w_log2 w_ops2 tr = 0
              /\ all_events tr = [(2, [100]); (3, [101]); (4, [102])]
              /\ safe only_restart w_cfg w_log2.
 Proof.
